@@ -216,21 +216,20 @@ func (s *Scheduler) HandleHeadEvent(ctx context.Context, slot eth2p0.Slot, block
 		Type: core.DutyAttester,
 	}
 
-	defSet, ok := s.getDutyDefinitionSet(duty)
-	if !ok {
+	// Clone defSet to prevent race conditions when it's modified or trimmed.
+	// Note the clone must be taken while holding the duties lock, since the set may still be growing
+	// if this head event arrives while the epoch of the slot is being resolved.
+	clonedDefSet, ok, err := s.cloneDutyDefinitionSet(duty)
+	if err != nil {
+		log.Error(ctx, "Failed to clone duty definition set for early fetch", err)
+		return
+	} else if !ok {
 		// Nothing for this duty
 		return
 	}
 
 	_, alreadyTriggered := s.eventTriggeredAttestations.LoadOrStore(uint64(slot), true)
 	if alreadyTriggered {
-		return
-	}
-
-	// Clone defSet to prevent race conditions when it's modified or trimmed
-	clonedDefSet, err := defSet.Clone()
-	if err != nil {
-		log.Error(ctx, "Failed to clone duty definition set for early fetch", err)
 		return
 	}
 
@@ -709,6 +708,24 @@ func (s *Scheduler) getDutyDefinitionSet(duty core.Duty) (core.DutyDefinitionSet
 	defSet, ok := s.duties[duty]
 
 	return defSet, ok
+}
+
+// cloneDutyDefinitionSet returns a clone of the duty definition set, taken while holding the duties lock.
+func (s *Scheduler) cloneDutyDefinitionSet(duty core.Duty) (core.DutyDefinitionSet, bool, error) {
+	s.dutiesMutex.RLock()
+	defer s.dutiesMutex.RUnlock()
+
+	defSet, ok := s.duties[duty]
+	if !ok {
+		return nil, false, nil
+	}
+
+	clone, err := defSet.Clone()
+	if err != nil {
+		return nil, false, err
+	}
+
+	return clone, true, nil
 }
 
 // setDutyDefinition returns true if the duty definition for the pubkey was set, false if it was already set.
